@@ -98,7 +98,7 @@ func (ai *authorizationInformation) addResultsTo(key string, ctx heimdall.Contex
 func newRemoteAuthorizer(ctx CreationContext, id string, rawConfig map[string]any) (*remoteAuthorizer, error) {
 	type Config struct {
 		Endpoint                 endpoint.Endpoint `mapstructure:"endpoint"                             validate:"required"` //nolint:lll
-		Expressions              []Expression      `mapstructure:"expressions"                          validate:"dive"`
+		Expressions              []Expression      `mapstructure:"expressions"                          validate:"omitempty,gt=0,dive"`
 		Payload                  template.Template `mapstructure:"payload"                              validate:"required_without=Endpoint.Headers"` //nolint:lll
 		ResponseHeadersToForward []string          `mapstructure:"forward_response_headers_to_upstream"`
 		CacheTTL                 time.Duration     `mapstructure:"cache_ttl"`
